@@ -312,7 +312,11 @@ def run(ctx):
     ctx.sample({"op": cases[len(cases) // 2][0][:200]})
     env = {"ASAN_OPTIONS": "detect_leaks=0:abort_on_error=0:allocator_may_return_null=1:max_allocation_size_mb=512"}
     tmp = os.path.join(core.CACHE, "tmp"); os.makedirs(tmp, exist_ok=True)
-    core.correspond(ctx, "K-C19", cases, [exe, tmp], [drv], classify, env=env, keep_prefix=0, max_report=6)
+    # chunks: a failing case only costs a one-by-one rerun of its own chunk
+    size = 2000
+    for k in range(0, len(cases), size):
+        core.correspond(ctx, f"K-C19[{k // size}]", cases[k:k + size], [exe, tmp], [drv], classify, env=env,
+                        keep_prefix=0, max_report=6)
 
 
 def replay(ctx, rep):
